@@ -229,6 +229,9 @@ pub fn install_panic_recorder() {
                 .unwrap_or("<unnamed>")
                 .to_string(),
         };
+        if std::env::var("VERIF_PANIC_PRINT").is_ok() {
+            eprintln!("PANIC thread={} at {}:{}: {}", site.thread, site.file, site.line, site.message.chars().take(300).collect::<String>());
+        }
         LAST_PANIC.with(|p| *p.borrow_mut() = Some(site.clone()));
         if let Ok(mut v) = ANY_THREAD_PANICS.lock() {
             if v.len() < 1000 {
